@@ -675,6 +675,8 @@ fn run_pipe(sc: &Sc, ax: &mut Axecutor, marks: &[u64], seen: &Rc<RefCell<Vec<(u6
         };
         if let StepOut::Panic(p) = &out {
             ctx.dev("C14", format!("C14|syscall{rax}|{oc}"), format!("syscall step panicked: {} at {}", p.msg, p.loc));
+            // C19: whatever sequence of calls led here, a step never crashes the host
+            ctx.dev("C19", format!("C19|crash_site|{}", p.class()), format!("a syscall step ({rax}) of a guest program using the built-in pipe handler panicked: {} at {}", p.msg, p.loc));
             return;
         }
         let saw_in_after_mode = sc.user_hook == "after" && !user_saw.is_empty();
@@ -1043,6 +1045,7 @@ fn run_brk(sc: &Sc, ax: &mut Axecutor, marks: &[u64], _seen: &Rc<RefCell<Vec<(u6
         };
         if let StepOut::Panic(p) = &out {
             ctx.dev("C13", format!("C13|{}|{oc}", match op { Op::Brk0 => "query", Op::BrkRel { .. } => "move", Op::Store { .. } => "store", _ => "load" }), format!("step panicked: {} at {}", p.msg, p.loc));
+            ctx.dev("C19", format!("C19|crash_site|{}", p.class()), format!("a step of a guest program using the built-in brk handler panicked: {} at {}", p.msg, p.loc));
             return;
         }
         let rax_after = ax.reg_read_64(SR::RAX).unwrap_or(0);
@@ -1246,6 +1249,7 @@ impl Engine for E3Engine {
             "C13" => 60_000,
             "C20" => 12_000,
             "C09" => 8_000,
+            "C19" => 30_000,
             _ => 80_000,
         };
         if thorough {
@@ -1259,6 +1263,13 @@ impl Engine for E3Engine {
         let sc = match prop {
             "C13" => gen_brk(&mut r, thorough, idx % 10 == 3),
             "C09" => gen_pipe_cfg(&mut r, thorough, true),
+            // C19: multi-step histories against the built-in handlers, fault configurations (bad buffers, wrong ends,
+            // colliding descriptors, blocked heaps) included; only crashes and hangs are judged there
+            "C19" => match idx % 3 {
+                0 => gen_brk(&mut r, thorough, idx % 9 == 0),
+                1 => gen_pipe_cfg(&mut r, thorough, true),
+                _ => gen_pipe(&mut r, thorough),
+            },
             "C20" => {
                 if idx % 2 == 0 {
                     gen_brk(&mut r, thorough, idx % 4 == 0)
@@ -1325,7 +1336,9 @@ impl Engine for E3Engine {
         )
     }
     fn rule(&self, prop: &str) -> String {
-        if prop == "C09" {
+        if prop == "C19" {
+            "multi-step part: guest programs against the built-in brk and pipe handlers (the C13 / C14 / C09 generators, fault configurations included: bad buffers, wrong ends, colliding descriptors, blocked heaps, heaps at the size limit); every step must return - a panic, abort or placement loop that uses up its budget is the violation, nothing else is judged".into()
+        } else if prop == "C09" {
             "system-call handlers as an access path: guest programs against the built-in pipe handler in which every third buffer (descriptor array of pipe(), destination of read(), source of write()) lies in a mapped area that forbids the access; the call must fail and change nothing".into()
         } else if prop == "C13" {
             "one run = a pre-existing layout of 0-6 areas around the addresses the heap placement probes, and a guest program of brk(0) / brk(base+delta) (grow, shrink, regrow, page-aligned or not, blocked by neighbours) interleaved with guest stores and loads at heap offsets; break model with shadow bytes; a run is non-trivial if it executed a syscall; distinct = distinct hash of the sequence of (operation kind, fits/blocked, outcome)".into()
